@@ -972,6 +972,45 @@ func liveAfterApply(c *env.Chain, ops []string, path []int) (viols []mc.Viol) {
 			}
 		}
 	}
+	// the committee OF A HEIGHT is a function of committed state: asked on the machine that holds the
+	// uncommitted block (as consensus look-ups at the tip do while a proposal is applied) it must be the
+	// answer the clean machine gives, now and after the commit
+	for _, chain := range both {
+		wantTip := renderVS(c.FSM.LoadCommittee(chain, h))
+		for _, q := range []uint64{h, 0} {
+			if gotTip := renderVS(cp.LoadCommittee(chain, q)); gotTip != wantTip {
+				viols = append(viols, mc.Viol{Sig: "C13:tip-height-committee-sees-uncommitted-block:" + classify(gotTip, wantTip),
+					What: fmt.Sprintf("ops=%v: LoadCommittee(%d, %d) asked at height %d on the machine holding the uncommitted block [stake delegate(7), stake validator(6)] = %s, on the clean machine = %s", ops, chain, q, h, gotTip, wantTip),
+					Replay: replayArt{Kind: "history", Path: path, Ops: ops, Height: h, Role: "validators", Got: gotTip, Want: wantTip}})
+			}
+		}
+	}
+	// the block is rolled back (a refused proposal, a round interrupt): every live reader must be back at
+	// the committed state
+	cp.Reset()
+	recs0, e4 := scanValidators(c.FSM.Store())
+	cs0, e5 := capsAt(c.FSM)
+	if e4 != nil || e5 != nil {
+		return append(viols, mc.Viol{Sig: "C13:harness-error", What: fmt.Sprint(e4, e5)})
+	}
+	for _, chain := range both {
+		for _, delegate := range []bool{true, false} {
+			capv, role := cs0.Val, "validators"
+			var got string
+			if delegate {
+				capv, role = cs0.Del, "delegates"
+				got = renderVS(cp.GetDelegates(chain))
+			} else {
+				got = renderVS(cp.GetCommitteeMembers(chain))
+			}
+			if want := reference(recs0, chain, delegate, capv).render(); got != want {
+				viols = append(viols, mc.Viol{Sig: fmt.Sprintf("C13:live-after-rollback:%s:%s", role, classify(got, want)),
+					What: fmt.Sprintf("ops=%v then ApplyBlock of [stake delegate(7), stake validator(6)] at height %d, committee read, Reset(): live FSM answers committee %d %s = %s, reference from the committed state = %s",
+						ops, h, chain, role, got, want),
+					Replay: replayArt{Kind: "history", Path: path, Ops: ops, Height: h, Role: role, Got: got, Want: want}})
+			}
+		}
+	}
 	return
 }
 
